@@ -37,7 +37,7 @@ def run(ck):
     ck.level = "proof"
     ck.cov["rule"] = ("histories of insert / find / remove-by-position / forward+backward walk / free, duplicates on and off, key orders random, ascending, "
                       "descending, zig-zag; after every call the whole shape (node id, key, balance factor, parent id in pre-order), size and comparator-call count "
-                      "are compared with the model; the harness itself checks iterator stability, destroy-once, callback user data, allocator balance")
+                      "are compared with the model; the harness itself checks iterator stability, destroy-once, callback user data, allocator balance, the proved comparison bound of every find (reachable_find_bound), and the allocator events of every call (header, one node per element) against the model")
     ck.assumptions += ["the comparator is a total order (integers)"]
     if not ck.build_driver(): return
     if not ck.prove(["ZixModel.Properties.C06", "ZixModel.Properties.C06History", "ZixModel.Properties.C06Iter"]):
